@@ -122,6 +122,35 @@ def run(ctx):
     # ---------------------------------------------------------------- C09.3
     # "unknown type or class" means exactly the catch-all variants: a query type is unknown iff it is Record(Unknown(_)), ANY /
     # AXFR / MAILA / MAILB are known; same for classes
+    # a question is unknown as soon as its type OR its class is: `false` is never returned while either test is true
+    qu = prog.fn(T + "Question::is_unknown")
+    qur = A.Resolver(qu)
+    quc = A.Conds(qu, qur)
+    def unk_call(which):
+        return lambda x: x[0] == "call" and x[1] == T + which + "::is_unknown"
+    def unk_fact(which, truth):
+        return lambda fc: fc[0] == "call" and fc[1] == T + which + "::is_unknown" and fc[3] is truth
+    n_ret = 0
+    for b, e in A.return_exprs(qu, qur):
+        pe = A.peel(e)
+        n_ret += 1
+        t_false = quc.guarded(b, unk_fact("QueryType", False))[0]
+        c_false = quc.guarded(b, unk_fact("QueryClass", False))[0]
+        if pe[0] == "const" and pe[2] in (False, 0):
+            ok = t_false and c_false
+        elif pe[0] == "const":
+            ok = quc.guarded(b, lambda fc: unk_fact("QueryType", True)(fc) or unk_fact("QueryClass", True)(fc))[0]
+        elif unk_call("QueryClass")(pe):
+            ok = t_false and A.path_str(pe[2][0]) == "param1.qclass"
+        elif unk_call("QueryType")(pe):
+            ok = c_false and A.path_str(pe[2][0]) == "param1.qtype"
+        elif pe[0] == "bin" and pe[1] in ("BitOr",):
+            ok = any(unk_call("QueryType")(A.peel(x)) for x in pe[2:4]) and any(unk_call("QueryClass")(A.peel(x)) for x in pe[2:4])
+        else:
+            ok = False
+        ctx.check(ok, "C09.3", "Question::is_unknown#%d" % n_ret, "unknown iff the type or the class is unknown",
+                  "Question::is_unknown returns %s without the other test having failed" % A.show(e)[:80], qu.loc(b))
+    ctx.floor("C09.3", "returns of Question::is_unknown", n_ret, 1)
     for ty, inner in (("QueryType", "RecordType"), ("QueryClass", "RecordClass")):
         qf = prog.fn(T + ty + "::is_unknown")
         qr = A.Resolver(qf)
